@@ -206,7 +206,7 @@ class C07(fw.Property):
     gen_jobs = ["protocol_is_recent"]
     model_imports = ["Verif.Lib.Py", "Verif.Gen.protocol_is_recent", "Verif.Model.C07", "Verif.Model.C07Stack"]
     quick_budget = 320
-    thorough_budget = 12000
+    thorough_budget = 9000
     design_ref = "DESIGN.md section 12"
     technique = ("Coq proofs (induction over all event lists, order theory on 24-bit serial numbers) over an executable model of Request._run / "
                  "ClientObservation / Pipe, with the freshness expression translated from protocol.py on every run; differential correspondence "
